@@ -1,0 +1,198 @@
+//! Seams for deterministic simulation. Only compiled with `--cfg a2lfile_verif`.
+//!
+//! With the cfg flag set, all file system access of the crate (`File::open`, `metadata`, `read`,
+//! `Path::exists`, `std::fs::write`) is routed through a thread-local [`Vfs`] if one is installed.
+//! If no [`Vfs`] is installed, then every call falls through to `std::fs`, so the behavior
+//! is identical to a build without the flag.
+//!
+//! Additionally a thread-local "fuel" counter can be armed: `tick()` is called at the head of the
+//! scanning loops of the tokenizers and by the token cursor of the parser. If the counter reaches zero,
+//! then `tick()` panics with a [`FuelExhausted`] payload. The counter is disarmed by default.
+
+use std::cell::{Cell, RefCell};
+use std::ffi::OsString;
+use std::io;
+use std::path::{Path, PathBuf};
+use std::rc::Rc;
+
+/// the file system operations used by the crate
+pub trait Vfs {
+    /// open a file for reading; returns a handle
+    fn open(&self, path: &Path) -> io::Result<u64>;
+    /// fstat: the size of an open file
+    fn metadata_len(&self, handle: u64) -> io::Result<u64>;
+    /// sequential read from an open file
+    fn read(&self, handle: u64, buf: &mut [u8]) -> io::Result<usize>;
+    /// close an open file
+    fn close(&self, handle: u64);
+    /// stat: does the path exist
+    fn exists(&self, path: &Path) -> bool;
+    /// create/truncate the file and write all data
+    fn write(&self, path: &Path, data: &[u8]) -> io::Result<()>;
+}
+
+thread_local! {
+    static VFS: RefCell<Option<Rc<dyn Vfs>>> = const { RefCell::new(None) };
+    static FUEL: Cell<Option<u64>> = const { Cell::new(None) };
+    static TICKS: Cell<u64> = const { Cell::new(0) };
+}
+
+/// install (or remove) the Vfs for the current thread
+pub fn install_vfs(vfs: Option<Rc<dyn Vfs>>) {
+    VFS.with(|v| *v.borrow_mut() = vfs);
+}
+
+fn current_vfs() -> Option<Rc<dyn Vfs>> {
+    VFS.with(|v| v.borrow().clone())
+}
+
+/// panic payload used when the fuel runs out
+#[derive(Debug)]
+pub struct FuelExhausted;
+
+/// arm (Some) or disarm (None) the fuel counter of the current thread; also resets the tick count
+pub fn set_fuel(fuel: Option<u64>) {
+    FUEL.with(|f| f.set(fuel));
+    TICKS.with(|t| t.set(0));
+}
+
+/// number of ticks since the last call of set_fuel
+pub fn ticks() -> u64 {
+    TICKS.with(Cell::get)
+}
+
+#[inline]
+pub(crate) fn tick() {
+    TICKS.with(|t| t.set(t.get().wrapping_add(1)));
+    FUEL.with(|f| {
+        if let Some(remaining) = f.get() {
+            if remaining == 0 {
+                f.set(None);
+                std::panic::panic_any(FuelExhausted);
+            }
+            f.set(Some(remaining - 1));
+        }
+    });
+}
+
+// ------------------------------------------------------------------------------------------------
+
+/// replacement for `std::fs::File` in loader.rs
+pub(crate) struct File {
+    inner: FileInner,
+}
+
+enum FileInner {
+    Real(std::fs::File),
+    Sim { vfs: Rc<dyn Vfs>, handle: u64 },
+}
+
+pub(crate) struct Metadata {
+    len: u64,
+}
+
+impl Metadata {
+    pub(crate) fn len(&self) -> u64 {
+        self.len
+    }
+}
+
+impl File {
+    pub(crate) fn open<P: AsRef<Path>>(path: P) -> io::Result<File> {
+        if let Some(vfs) = current_vfs() {
+            let handle = vfs.open(path.as_ref())?;
+            Ok(File {
+                inner: FileInner::Sim { vfs, handle },
+            })
+        } else {
+            Ok(File {
+                inner: FileInner::Real(std::fs::File::open(path)?),
+            })
+        }
+    }
+
+    pub(crate) fn metadata(&self) -> io::Result<Metadata> {
+        match &self.inner {
+            FileInner::Real(file) => Ok(Metadata {
+                len: file.metadata()?.len(),
+            }),
+            FileInner::Sim { vfs, handle } => Ok(Metadata {
+                len: vfs.metadata_len(*handle)?,
+            }),
+        }
+    }
+}
+
+impl io::Read for File {
+    fn read(&mut self, buf: &mut [u8]) -> io::Result<usize> {
+        match &mut self.inner {
+            FileInner::Real(file) => file.read(buf),
+            FileInner::Sim { vfs, handle } => vfs.read(*handle, buf),
+        }
+    }
+}
+
+impl Drop for File {
+    fn drop(&mut self) {
+        if let FileInner::Sim { vfs, handle } = &self.inner {
+            vfs.close(*handle);
+        }
+    }
+}
+
+// ------------------------------------------------------------------------------------------------
+
+/// replacement for `&Path` in loader::make_include_filename; only the methods used there exist
+pub(crate) struct SimPath {
+    path: PathBuf,
+}
+
+impl SimPath {
+    pub(crate) fn new(path: &Path) -> Self {
+        Self {
+            path: path.to_path_buf(),
+        }
+    }
+
+    pub(crate) fn parent(&self) -> Option<SimPath> {
+        self.path.parent().map(SimPath::new)
+    }
+
+    pub(crate) fn join<P: AsRef<Path>>(&self, other: P) -> SimPath {
+        SimPath {
+            path: self.path.join(other),
+        }
+    }
+
+    pub(crate) fn exists(&self) -> bool {
+        if let Some(vfs) = current_vfs() {
+            vfs.exists(&self.path)
+        } else {
+            self.path.exists()
+        }
+    }
+}
+
+impl From<SimPath> for OsString {
+    fn from(value: SimPath) -> Self {
+        OsString::from(value.path)
+    }
+}
+
+// ------------------------------------------------------------------------------------------------
+
+/// shadows the name `std` inside A2lFile::write, so that `std::fs::write` can be intercepted
+pub(crate) mod shadow_std {
+    pub(crate) mod fs {
+        use std::io;
+        use std::path::Path;
+
+        pub(crate) fn write<P: AsRef<Path>, C: AsRef<[u8]>>(path: P, contents: C) -> io::Result<()> {
+            if let Some(vfs) = super::super::current_vfs() {
+                vfs.write(path.as_ref(), contents.as_ref())
+            } else {
+                ::std::fs::write(path, contents)
+            }
+        }
+    }
+}
